@@ -20,8 +20,23 @@ static int len_range(Rng &r, int lo, int hi) {
 }
 static int64_t d2bits(double d) { int64_t b; memcpy(&b, &d, 8); return b; }
 static int64_t R(Rng &r) { return (int64_t)(r.next() >> 2); }
+// long keys: lengths sweep across the sizes a fixed scratch buffer could have (powers of two); the body is one letter in
+// random case, so that two long keys of an object agree - after case folding - in a long prefix and differ only near the end
+static std::string longkey(Rng &r, bool pointer_chars) {
+    static const int base[] = {16, 32, 64, 128, 256, 512, 1024};
+    size_t len = r.chance(1, 2) ? (size_t)(base[r.below(7)] + 2 - (int)r.below(16)) : (size_t)r.range(1, 300);
+    char c = r.chance(3, 4) ? 'k' : (char)('a' + r.below(26));
+    bool mixed = r.chance(1, 2);
+    std::string k(len, c);
+    if (mixed) for (auto &ch : k) if (r.chance(1, 2)) ch = (char)(ch - 32);
+    size_t tail = (size_t)r.range(0, 3);
+    for (size_t i = 0; i < tail && i < len; i++) k[len - 1 - i] = "abAB01zZ"[r.below(8)];
+    if (pointer_chars && r.chance(1, 4)) k[r.below(len)] = r.chance(1, 2) ? '/' : '~';
+    return k;
+}
 static std::string hkey(Rng &r) {
     static const char *ks[] = {"a", "b", "A", "B", "ab", "aB", "", "k1", "name", "Name", "ck", "CK", "c", "z"};
+    if (r.chance(1, 16)) return longkey(r, false);
     if (r.chance(1, 10)) return gen_string(r, false, false, 5);
     if (r.chance(1, 6)) {  // every letter, in either case: case folding must work for the whole alphabet
         std::string k;
@@ -35,17 +50,9 @@ static std::string hkey(Rng &r) {
 }
 static bool g_casekeys = false;
 static std::string ukey(Rng &r) {  // keys for Utils documents
-    if (g_casekeys) { static const char *cs[] = {"a", "A", "b", "B", "c", "C", "d", "aa", "aA", "Ab"}; return cs[r.below(10)]; }
+    if (g_casekeys) { if (r.chance(1, 14)) return longkey(r, false); static const char *cs[] = {"a", "A", "b", "B", "c", "C", "d", "aa", "aA", "Ab"}; return cs[r.below(10)]; }
     static const char *ks[] = {"a", "b", "A", "", "/", "~", "a/b", "m~n", "0", "1", "-", "x", "foo", "B", "c", "d", "new"};
-    if (r.chance(1, 14)) {
-        // long keys: pointer lengths sweep across the sizes a fixed scratch buffer could have (powers of two), with and
-        // without characters whose pointer encoding is longer than the key
-        static const int base[] = {16, 32, 64, 128, 256, 512, 1024};
-        size_t len = r.chance(1, 2) ? (size_t)(base[r.below(7)] + 2 - (int)r.below(16)) : (size_t)r.range(1, 300);
-        std::string k(len, (char)('a' + r.below(26)));
-        if (r.chance(1, 4)) k[r.below(len)] = r.chance(1, 2) ? '/' : '~';
-        return k;
-    }
+    if (r.chance(1, 14)) return longkey(r, true);
     return ks[r.below(17)];
 }
 static Step mk(const std::string &op, std::initializer_list<int64_t> a = {}, std::initializer_list<std::string> s = {}) {
